@@ -53,6 +53,24 @@ def build_measurements(case):
     return meas
 
 
+def _enforced_tolerance():
+    """The tolerance the estimator enforces is the constant its own stopping test compares the oracle's feasibility measure with
+    (`if model.primal_feasibility(mu) < <constant>: break` in mirror_descent_auto), read from the tree under verification; 1.0 if that
+    test cannot be found (the deductive tier then reports the wiring obligation as undecided)."""
+    import ast
+    from .. import frontend
+    try:
+        fn, _s, _h = frontend.get_function('src/mbi/local_inference.py', 'LocalInference.mirror_descent_auto')
+        for n in ast.walk(fn):
+            if isinstance(n, ast.If) and len(n.body) == 1 and isinstance(n.body[0], ast.Break) and isinstance(n.test, ast.Compare) \
+                    and isinstance(n.test.left, ast.Call) and ast.unparse(n.test.left.func).endswith('.primal_feasibility') \
+                    and isinstance(n.test.comparators[0], ast.Constant) and isinstance(n.test.comparators[0].value, (int, float)):
+                return float(n.test.comparators[0].value)
+    except Exception:
+        pass
+    return 1.0
+
+
 class C18(Prop):
     id = 'C18'
     level = 'other'
@@ -241,7 +259,8 @@ class C18(Prop):
                 edges = [(p, r) for p in model.cliques for r in model.children[p]]
                 l1 = [float(np.abs(ac.marg(mg[p], list(p), r) - mg[r]).sum()) for p, r in edges]
                 feas = float(np.mean(l1)) if l1 else 0.0
-                out.append(('convex-overlap-within-enforced-tolerance' + tag, feas < 1.0, dict(mean_l1_disagreement=feas, edges=len(edges), total=T)))
+                tol = _enforced_tolerance()
+                out.append(('convex-overlap-within-enforced-tolerance' + tag, feas < tol, dict(mean_l1_disagreement=feas, enforced_tolerance=tol, edges=len(edges), total=T)))
             if ref is not None:
                 Lopt = min(ref['exact_estimation_loss'], ref['independent_optimum'])
                 tolv = 1e-3 * max(L0 - Lopt, 0.0) + 1e-6
